@@ -18,6 +18,13 @@ def pipeline(nproc, rsize):
     return {"rsize": rsize, "procs": procs, "inputs": 1, "outputs": 1, "bonds": bonds}
 
 
+def two_outputs(rsize):
+    """one processor, two outputs: the first is shown in the caller's data type, the last (which ends the run) as unsigned"""
+    prog = ["i2rw r0 i0", "nop", "nop", "r2owa r0 o0", "nop", "nop", "r2owa r0 o1", "nop", "nop", "j 0"]
+    proc = {"arch": {"R": 1, "N": 1, "M": 2, "L": 0, "O": 4, "ops": ["i2rw", "j", "nop", "r2owa"], "mode": "ha", "rsize": rsize}, "prog": prog}
+    return {"rsize": rsize, "procs": [proc], "inputs": 1, "outputs": 2, "bonds": [["p0i0", "i0"], ["o0", "p0o0"], ["o1", "p0o1"]]}
+
+
 def run(res, a):
     failed = C.proof_part(res, "C17", trusted=[
         "Front/Barrier.v (worker protocol LTS) and Front/Leak.v (bookkeeping) are hand-written models; the tie is the goroutine "
@@ -39,6 +46,11 @@ def run(res, a):
         nproc = rnd.choice([1, 2, 3])
         reqs.append({"bm": pipeline(nproc, 8), "call": "fitness", "n": n, "conc": conc, "input": [str(rnd.randrange(100))], "nproc": nproc,
                      "expobj": "o7", "fails": True})
+    for n, conc in ((10, 0), (40, 4)):
+        nproc = rnd.choice([1, 2, 3])
+        reqs.append({"bm": two_outputs(8), "call": "single", "n": n, "conc": conc, "input": [str(rnd.randrange(100))], "nproc": 1,
+                     "datatype": "nosuchtype", "fails": True})
+    reqs.append({"bm": {}, "call": "reqroot", "n": 20, "conc": 0, "nproc": 0})
     reqs.append({"bm": {}, "call": "assemble", "n": 10, "conc": 0, "basm": BASM, "nproc": 0})
     if a.replay:
         reqs = [json.load(open(a.replay))["replay"]["request"]]
@@ -52,7 +64,7 @@ def run(res, a):
             raise C.Broken("c17 harness: " + r["err"])
         if q.get("fails"):
             if not all(x.startswith("err:") for x in r.get("results") or ["?"]):
-                viol.append(("Fitness_default accepts an expectation about an output the machine does not have: %s" % r.get("results"), q))
+                viol.append(("a %s call that must fail (missing output / unknown data type) succeeds: %s" % (q["call"], r.get("results")), q))
                 continue
         elif any(x.startswith("err:") for x in r.get("results") or []):
             viol.append(("call %s failed: %s" % (q["call"], r["results"]), q))
